@@ -3,6 +3,7 @@
 package main
 
 import (
+	"context"
 	"encoding/binary"
 	"errors"
 	"io"
@@ -10,6 +11,8 @@ import (
 	"os"
 	"sync"
 	"time"
+
+	"github.com/IrineSistiana/mosdns/v5/pkg/upstream/transport"
 )
 
 // fakeConn is a transport.NetConn whose peer is the harness: every Write is
@@ -34,6 +37,7 @@ type fakeConn struct {
 	rdlHist  []time.Duration // every SetReadDeadline, relative to the moment it was set
 	rdlSetAt []time.Time
 	blockSetReadDeadline chan struct{} // if non-nil, SetReadDeadline blocks on it (schedule point)
+	scale    int           // if > 1, deadlines are shortened by this factor (the recorded history keeps the requested durations)
 }
 
 func newFakeConn(id int, stream bool) *fakeConn {
@@ -117,11 +121,16 @@ func (c *fakeConn) setRdl(t time.Time) {
 		<-ch
 	}
 	c.mu.Lock()
-	c.rdl = t
 	now := time.Now()
 	if !t.IsZero() {
 		c.rdlHist = append(c.rdlHist, t.Sub(now))
 		c.rdlSetAt = append(c.rdlSetAt, now)
+		if c.scale > 1 {
+			t = now.Add(t.Sub(now) / time.Duration(c.scale))
+		}
+	}
+	c.rdl = t
+	if !t.IsZero() {
 		if d := t.Sub(now); d > 0 {
 			time.AfterFunc(d+time.Millisecond, func() { c.mu.Lock(); c.cond.Broadcast(); c.mu.Unlock() })
 		}
@@ -247,3 +256,94 @@ func mkReply(q []byte, wid uint16) []byte {
 
 var errFake = errors.New("injected fault")
 var _ = io.EOF
+
+// ---- callers on a reserved exchanger (shared by C07 and C09)
+
+type call09 struct {
+	tag    int
+	id     uint16
+	cancel context.CancelFunc
+	done   chan struct{}
+	resp   *[]byte
+	err    error
+	wireQ  []byte // the query as written on the connection
+}
+
+func (c *call09) wait(d time.Duration) bool {
+	select {
+	case <-c.done:
+		return true
+	case <-time.After(d):
+		return false
+	}
+}
+
+var tag09 int
+
+func startCall09(rx transport.ReservedExchanger, dead bool) *call09 {
+	tag09++
+	c := &call09{tag: tag09, id: uint16(tag09*13 + 5), done: make(chan struct{})}
+	ctx, cancel := context.WithTimeout(context.Background(), 5*time.Second)
+	c.cancel = cancel
+	if dead {
+		cancel()
+	}
+	q := mkQuery(c.id, c.tag)
+	go func() {
+		c.resp, c.err = rx.ExchangeReserved(ctx, q)
+		close(c.done)
+	}()
+	return c
+}
+
+// findWrite waits until the query with tag was written on fc (or the call ended).
+func findWrite09(fc *fakeConn, c *call09, d time.Duration) bool {
+	deadline := time.Now().Add(d)
+	for {
+		fc.mu.Lock()
+		for _, w := range fc.writes {
+			p := fc.payloadOf(w)
+			if len(p) >= 12 && tagOf(p) == c.tag {
+				c.wireQ = p
+				fc.mu.Unlock()
+				return true
+			}
+		}
+		fc.mu.Unlock()
+		select {
+		case <-c.done:
+			// one more look: the write may have happened right before the return
+			fc.mu.Lock()
+			for _, w := range fc.writes {
+				p := fc.payloadOf(w)
+				if len(p) >= 12 && tagOf(p) == c.tag {
+					c.wireQ = p
+				}
+			}
+			fc.mu.Unlock()
+			return c.wireQ != nil
+		default:
+		}
+		if time.Now().After(deadline) {
+			return false
+		}
+		time.Sleep(100 * time.Microsecond)
+	}
+}
+
+// probe09 counts how many reservations rsv admits right now and gives them back.
+func probe09(rsv func() (transport.ReservedExchanger, bool)) int {
+	var got []transport.ReservedExchanger
+	for i := 0; i < 100; i++ {
+		rx, _ := rsv()
+		if rx == nil {
+			break
+		}
+		got = append(got, rx)
+	}
+	for _, rx := range got {
+		rx.WithdrawReserved()
+	}
+	return len(got)
+}
+
